@@ -282,3 +282,16 @@ for _p in ('C01', 'C10'):
 PROPS['C01']['explanation'] += (' Fitter.__init__: the distance pattern handed to Models.fit is -2 for every filter and the extinction pattern is get_av of the model wavelengths '
                                 '(Models.read assumed at that call site; its two readers are under contract in C02).')
 PROPS['C10']['assumptions'] = [x.replace('Fitter.__init__ (Models.read: file I/O) is assumed; ', 'Models.read (dispatch on the package version) and delete_file are assumed at their call sites; ') for x in PROPS['C10']['assumptions']]
+
+
+# ---- writers of SED / cube files under contract ----------------------------------------------------
+PROPS['C12']['e1'] = PROPS['C12']['e1'] + [SEDC + 'write', CUBEN + 'BaseCube.write']
+PROPS['C12']['assumptions'] = COMMON + [D_FITS, D_ARGSORT, 'A-UNIT: unit model of sedvc/units.py',
+                                        'dep: astropy Table.sort(key) re-orders every column by np.argsort(column key); np.argsort is a function of its argument; fits HDU / HDUList constructors keep '
+                                        'what they are given; HDUList.writeto stores it (byte format and read-back: bounded run)', 'assumed: table_to_hdu (Table -> BinTableHDU with units)',
+                                        'ConvolvedFluxes files and the consumers of the order (convolve loops: C07) are not part of this check\'s proved set; Filter.rebin accepting either storage order is proved under C06']
+PROPS['C12']['explanation'] = ('E1: SED.read (4 unit/order variants): wavelengths, frequencies, fluxes and errors come back as stored or reversed TOGETHER, each cell converted with the frequency of that cell, '
+                               'the requested order holds along the whole axis. SED.write: ONE re-ordering (increasing frequency) applied to the spectral table and, per aperture, to fluxes and errors -- row k '
+                               'and column k describe the same wavelength; name, distance in cm, apertures, units stored. SEDCube.read (4 variants): the same on the third axis, frequencies seen by a consumer '
+                               'satisfy lambda nu = c; SEDCube.write: every extension cell for cell with its unit, frequencies derived from the wavelengths; SEDCube.get_sed: the SED of the first row with that '
+                               'name. E2: write/read round trips through real files in both orders, cube vs per-file, convolved-flux files.')
